@@ -50,6 +50,7 @@ type SpecEnv struct {
 	At    token.Pos // position used to disambiguate shadowed locals
 	facts []*Term   // facts collected while inside a quantifier
 	inQ   int
+	Root     *State // where type-invariant facts go while evaluating under old(...)
 	GoalOnly bool // the expression is only ever used as a proof goal (never assumed)
 }
 
@@ -91,10 +92,19 @@ func (se *SpecEnv) load(f func(st *State) Value, st *State) Value {
 		se.facts = append(se.facts, facts...)
 	} else {
 		for _, ft := range facts {
-			se.Cur.assume(ft)
+			se.assumeFact(ft)
 		}
 	}
 	return v
+}
+
+// assumeFact records a type invariant on the state the enclosing obligation is about (not on an old state).
+func (se *SpecEnv) assumeFact(t *Term) {
+	if se.Root != nil {
+		se.Root.assume(t)
+		return
+	}
+	se.Cur.assume(t)
 }
 
 func (se *SpecEnv) eval(x *SExpr) TV {
@@ -117,6 +127,9 @@ func (se *SpecEnv) eval(x *SExpr) TV {
 	case "old":
 		n := *se
 		n.Cur = se.Old
+		if n.Root == nil {
+			n.Root = se.Cur
+		}
 		n.facts = nil
 		r := n.eval(x.Args[0])
 		se.facts = append(se.facts, n.facts...)
@@ -271,6 +284,48 @@ func (se *SpecEnv) evalID(name string) TV {
 }
 
 func (se *SpecEnv) lookupLocal(name string) (TV, bool) {
+	// Go scoping at the point the clause is attached to
+	if se.At.IsValid() && se.Pkg != nil && se.Pkg.Types != nil {
+		if inner := se.Pkg.Types.Scope().Innermost(se.At); inner != nil {
+			if _, obj := inner.LookupParent(name, se.At); obj != nil {
+				if vr, isVar := obj.(*types.Var); isVar && obj.Parent() != se.Pkg.Types.Scope() && obj.Parent() != types.Universe {
+					if v, ok := se.Env.getVar(se.Cur, vr); ok {
+						return TV{v, vr.Type()}, true
+					}
+					return TV{}, false
+				}
+			}
+			// not a Go local in scope here: synthetic variables (results, range indices) match by name, and so does
+			// a local whose block has been left if it is the only variable of that name in the function
+			var cand types.Object
+			n := 0
+			for obj := range se.Cur.vars {
+				if obj.Name() != name {
+					continue
+				}
+				if !obj.Pos().IsValid() {
+					v, _ := se.Env.getVar(se.Cur, obj)
+					return TV{v, obj.Type()}, true
+				}
+				cand = obj
+			}
+			if cand != nil && se.Pkg.TypesInfo != nil {
+				lo, hi := se.C.funcExtent()
+				for id, obj := range se.Pkg.TypesInfo.Defs {
+					if obj != nil && id.Name == name && id.Pos() >= lo && id.Pos() <= hi {
+						if _, isVar := obj.(*types.Var); isVar {
+							n++
+						}
+					}
+				}
+				if n == 1 && cand.Pos() <= se.At {
+					v, _ := se.Env.getVar(se.Cur, cand)
+					return TV{v, cand.Type()}, true
+				}
+			}
+			return TV{}, false
+		}
+	}
 	var best types.Object
 	for obj := range se.Cur.vars {
 		if obj.Name() != name {
@@ -356,7 +411,9 @@ func (se *SpecEnv) evalQuant(x *SExpr) TV {
 	n.inQ = se.inQ + 1
 	n.facts = nil
 	body := n.evalBool(x.Args[0])
-	g := And(append(guards, n.facts...)...)
+	// type invariants of the values read under the quantifier hold for every instance: they are assumed as
+	// separate universally quantified facts (so that the formula means the same as a hypothesis and as a goal)
+	g := And(append(guards, TyInv(And(n.facts...)))...)
 	if x.Op == "forall" {
 		return TV{Forall(vars, Implies(g, body)), types.Typ[types.Bool]}
 	}
@@ -675,8 +732,49 @@ func (se *SpecEnv) evalCall(x *SExpr) TV {
 			se.fail("bytes of non-slice")
 		}
 		return TV{V: c.bytesOf(se.stOf(a), sl)}
+	case "kcmp", "lexk":
+		// user-key order (kcmp) / bytewise order (lexk) on abstract keys
+		ra := se.keyRank(se.eval(args[0]))
+		rb := se.keyRank(se.eval(args[1]))
+		if name == "lexk" {
+			ra, rb = c.lof(se.Cur, ra), c.lof(se.Cur, rb)
+		}
+		return TV{cmp3(ra, rb), types.Typ[types.Int]}
+	case "ikcmp":
+		a, ok1 := se.eval(args[0]).V.(*IKeyV)
+		b, ok2 := se.eval(args[1]).V.(*IKeyV)
+		if !ok1 || !ok2 {
+			se.fail("ikcmp needs internal keys (abstract keys)")
+		}
+		return TV{ikcmpTerm(a, b), types.Typ[types.Int]}
+	case "ukeyof", "numof", "seqof", "kindof":
+		a, ok := se.eval(args[0]).V.(*IKeyV)
+		if !ok {
+			se.fail("%s needs an internal key (abstract keys)", name)
+		}
+		switch name {
+		case "ukeyof":
+			return TV{a.U, types.NewSlice(types.Typ[types.Uint8])}
+		case "numof":
+			return TV{a.Num, types.Typ[types.Uint64]}
+		case "seqof":
+			return TV{IDivE(a.Num, IntC(256)), types.Typ[types.Uint64]}
+		default:
+			return TV{IModE(a.Num, IntC(256)), types.Typ[types.Uint64]}
+		}
+	case "mkikey":
+		u, ok := se.eval(args[0]).V.(*KeyV)
+		if !ok {
+			se.fail("mkikey needs a user key")
+		}
+		seq := se.evalTerm(args[1])
+		kt := se.evalTerm(args[2])
+		return TV{&IKeyV{U: &KeyV{Rank: u.Rank, Nil: TFalse, Len: u.Len}, Num: IAdd(IMul(seq, IntC(256)), kt)}, nil}
 	case "isnil":
 		a := se.eval(args[0])
+		if k, ok := a.V.(*IKeyV); ok {
+			return TV{k.U.Nil, bt}
+		}
 		if sl, ok := a.V.(*SliceV); ok {
 			return TV{Eq(sl.Base, IntC(0)), bt}
 		}
@@ -906,6 +1004,20 @@ func (se *SpecEnv) specArg(a TV, ptype, fname string) *Term {
 	return coerce(t, srt)
 }
 
+// keyRank: the rank of an abstract user key (a KeyV or a quantified variable of spec type key).
+func (se *SpecEnv) keyRank(a TV) *Term {
+	switch k := a.V.(type) {
+	case *KeyV:
+		return k.Rank
+	case *Term:
+		if k.Sort == SKey {
+			return k
+		}
+	}
+	se.fail("abstract user key expected")
+	return nil
+}
+
 // evalHeld: held(x.mu) — ghost lock counter of the lock field at object x.
 func (se *SpecEnv) evalHeld(kind string, arg *SExpr) TV {
 	c := se.C
@@ -1124,7 +1236,7 @@ type loopInv struct {
 	eval  func(e *Env, st *State, entry *State) *Term
 }
 
-func (c *FCtx) loopInvariants(e *Env, spec *LoopSpec, ordinal int) []loopInv {
+func (c *FCtx) loopInvariants(e *Env, spec *LoopSpec, ordinal int, at token.Pos) []loopInv {
 	var out []loopInv
 	// implicit range-index bounds
 	for pos, ri := range c.rangeIdx {
@@ -1150,6 +1262,9 @@ func (c *FCtx) loopInvariants(e *Env, spec *LoopSpec, ordinal int) []loopInv {
 			label = fmt.Sprintf("%d", i+1)
 		}
 		out = append(out, loopInv{label: label, text: inv.Text, eval: func(e *Env, st *State, entry *State) *Term {
+			saved := c.specAt
+			c.specAt = at
+			defer func() { c.specAt = saved }()
 			return c.evalSpecTerm(e, inv.Expr, st, c.entry, nil)
 		}})
 	}
@@ -1173,7 +1288,7 @@ func (c *FCtx) specEnvFor(e *Env, st *State, old *State, extra map[string]TV) *S
 		b.vals[k] = v
 	}
 	// rangeidx: hidden index of the innermost range loop known
-	se := &SpecEnv{C: c, Pkg: e.Pkg, B: b, Cur: st, Old: old, Env: e}
+	se := &SpecEnv{C: c, Pkg: e.Pkg, B: b, Cur: st, Old: old, Env: e, At: c.specAt}
 	var names []string
 	for obj := range st.vars {
 		if strings.HasPrefix(obj.Name(), "range$") {
@@ -1190,4 +1305,69 @@ func (c *FCtx) specEnvFor(e *Env, st *State, old *State, extra map[string]TV) *S
 		}
 	}
 	return se
+}
+
+// closeFacts quantifies type-invariant facts over the bound variables, one quantifier per fact, triggered on the
+// heap read the fact is about (so that an instance is produced exactly when that read occurs in the query).
+func closeFacts(vars []*Term, facts []*Term) *Term {
+	var out []*Term
+	seen := map[string]bool{}
+	for _, f := range facts {
+		k := f.String()
+		if seen[k] {
+			continue
+		}
+		seen[k] = true
+		q := Forall(vars, f)
+		if q.Op == "forall" {
+			if pt := triggerFor(vars, f); pt != nil {
+				q.Pats = [][]*Term{{pt}}
+			}
+		}
+		out = append(out, q)
+	}
+	return And(out...)
+}
+
+func triggerFor(vars []*Term, t *Term) *Term {
+	if t.Op == "forall" || t.Op == "exists" {
+		return nil
+	}
+	if t.Op == "select" || t.Op == "app" {
+		all := true
+		for _, v := range vars {
+			if !mentions(t, v) {
+				all = false
+				break
+			}
+		}
+		if all {
+			return t
+		}
+	}
+	for _, a := range t.Args {
+		if r := triggerFor(vars, a); r != nil {
+			return r
+		}
+	}
+	return nil
+}
+
+func mentions(t, v *Term) bool {
+	if t == v || (t.Op == "var" && v.Op == "var" && t.Name == v.Name) {
+		return true
+	}
+	for _, a := range t.Args {
+		if mentions(a, v) {
+			return true
+		}
+	}
+	return false
+}
+
+func (c *FCtx) funcExtent() (token.Pos, token.Pos) {
+	if c.FI != nil && c.FI.Decl != nil {
+		return c.FI.Decl.Pos(), c.FI.Decl.End()
+	}
+	return token.NoPos, token.NoPos
 }
